@@ -536,7 +536,11 @@ fn write_child_result(ctx: &Ctx, out: &Path) {
 // ------------------------------------------------------------------------------------------
 // Driver side
 pub fn bin_for(profile: &str) -> PathBuf {
-    Path::new(&verif_root()).join("target").join(profile).join("agv")
+    // AGV_BIN_DIR: alternative build output (used by tools/coverage.sh for the instrumented build)
+    match std::env::var("AGV_BIN_DIR") {
+        Ok(d) => Path::new(&d).join(profile).join("agv"),
+        Err(_) => Path::new(&verif_root()).join("target").join(profile).join("agv"),
+    }
 }
 pub fn tmp_dir(id: &str) -> PathBuf {
     let d = Path::new(&verif_root()).join("target").join("tmp").join(id);
@@ -559,6 +563,9 @@ pub fn driver_main(prop: &Prop, opts: &DriverOpts) -> i32 {
     let mut children_notes: Vec<(String, BTreeMap<String, String>)> = Vec::new();
     let mut crash_violations: Vec<(String, String)> = Vec::new();
     let mut profiles = (prop.profiles)(tier);
+    if let Ok(only) = std::env::var("AGV_PROFILES") {
+        profiles.retain(|p| only.split(',').any(|o| o == *p));
+    }
     let mut nshards = (prop.shards)(tier);
     let mut only: Option<(String, u64)> = None;
     let mut seed = opts.seed;
@@ -838,7 +845,11 @@ fn write_evidence(prop: &Prop, m: &Ctx, profiles: &[&str], nshards: usize, disti
         "wall_s": (wall * 100.0).round() / 100.0,
         "violations": m.n_violations,
     });
-    let dir = Path::new(&verif_root()).join("evidence");
+    // AGV_EVIDENCE_DIR: side runs (coverage, self-test) must not overwrite the registered evidence
+    let dir = match std::env::var("AGV_EVIDENCE_DIR") {
+        Ok(d) => PathBuf::from(d),
+        Err(_) => Path::new(&verif_root()).join("evidence"),
+    };
     let _ = std::fs::create_dir_all(&dir);
     std::fs::write(dir.join(format!("{}.json", prop.id)), serde_json::to_string_pretty(&ev).unwrap() + "\n").unwrap();
 }
